@@ -129,3 +129,65 @@ Section VecLessLaws.
     destruct l2; cbn [lexb length]; split; reflexivity.
   Qed.
 End VecLessLaws.
+
+(* ---------- == and < are consistent at vector level: equal vectors are not ordered ---------- *)
+Lemma eqm_all_noflt L : forallb eqm L = true -> noflt L.
+Proof.
+  intros H j Hj. rewrite forallb_forall in H. apply eqm_not_flt. apply H. apply nth_In. exact Hj.
+Qed.
+
+Lemma lxm_eqm p : lxm p = true -> eqm p = true.
+Proof. unfold lxm, eqm. destruct (pty p); congruence. Qed.
+
+Lemma tuple_eqv_sym L t1 t2 : tuple_eqv L t1 t2 -> tuple_eqv L t2 t1.
+Proof. intros H j Hj. rewrite span_eq_sym. apply H. exact Hj. Qed.
+
+Lemma lexb_eqv_lists L : L <> [] -> forall l1 l2 : list tuple, length l1 = length l2 ->
+  (forall i, (i < length l1)%nat -> tuple_eqv L (nth i l1 []) (nth i l2 [])) ->
+  lexb _ (tuple_less L) l1 l2 = false.
+Proof.
+  intros HL. induction l1 as [|x a IH]; intros [|y b] Hlen H; cbn [length] in Hlen; try lia; cbn [lexb]; [reflexivity|].
+  pose proof (H O ltac:(cbn [length]; lia)) as H0. cbn [nth] in H0.
+  rewrite (eqv_tuples_not_less L HL x y H0), (eqv_tuples_not_less L HL y x (tuple_eqv_sym L x y H0)).
+  apply IH; [lia|]. intros i Hi. exact (H (S i) ltac:(cbn [length]; lia)).
+Qed.
+
+Section VecEqualNotLess.
+  Variable L : list param.
+  Hypothesis Hwf : wf_plist L = true.
+  Hypothesis HL : L <> [].
+  Variables (v1 v2 : vec) (l1 l2 : list tuple).
+  Hypothesis R1 : Rep L v1 l1.
+  Hypothesis R2 : Rep L v2 l2.
+
+  Lemma vec_equal_not_less_one : vec_equal L v1 v2 = true -> vec_less L v1 v2 = false.
+  Proof.
+    intros He.
+    destruct (forallb eqm L && padfree L && list_eqb (v_fixed v1) (v_fixed v2)) eqn:Hc.
+    - (* whole-buffer ==: the two lists are identical *)
+      assert (Hnf : noflt L).
+      { apply eqm_all_noflt. apply andb_true_iff in Hc. destruct Hc as [Hc _]. apply andb_true_iff in Hc. tauto. }
+      apply (vec_equal_content L v1 l1 v2 l2 Hwf Hnf R1 R2) in He. subst l2.
+      destruct (vec_less_some_lex L Hwf HL v1 v2 l1 l1 R1 R2) as (lt & _ & Hi & E1 & _).
+      rewrite E1. apply lexb_irrefl. exact Hi.
+    - (* element-wise ==: same length, field-wise equal elements; then < cannot take the whole-buffer path *)
+      destruct (forallb lxm L && negb (has_varying L) && padfree L && list_eqb (v_fixed v1) (v_fixed v2)) eqn:Hl.
+      + exfalso. apply andb_true_iff in Hl. destruct Hl as [Hl Hfx]. apply andb_true_iff in Hl. destruct Hl as [Hl Hpf].
+        apply andb_true_iff in Hl. destruct Hl as [Hl _].
+        assert (Hq : forallb eqm L = true).
+        { rewrite forallb_forall in *. intros p Hp. apply lxm_eqm. apply Hl. exact Hp. }
+        rewrite Hq, Hpf, Hfx in Hc. discriminate.
+      + destruct R1 as [o1 R1']. destruct R2 as [o2 R2'].
+        rewrite (vec_less_content_elementwise L Hwf v1 v2 l1 l2 o1 o2 R1' R2' Hl).
+        apply (vec_equal_eqv_elementwise L Hwf v1 v2 l1 l2 o1 o2 R1' R2' Hc) in He. destruct He as [Hlen Hq].
+        apply lexb_eqv_lists; assumption.
+  Qed.
+End VecEqualNotLess.
+
+Theorem vec_equal_not_less L : wf_plist L = true -> L <> [] -> forall v1 l1 v2 l2, Rep L v1 l1 -> Rep L v2 l2 ->
+  vec_equal L v1 v2 = true -> vec_less L v1 v2 = false /\ vec_less L v2 v1 = false.
+Proof.
+  intros Hwf HL v1 l1 v2 l2 R1 R2 He. split.
+  - exact (vec_equal_not_less_one L Hwf HL v1 v2 l1 l2 R1 R2 He).
+  - apply (vec_equal_not_less_one L Hwf HL v2 v1 l2 l1 R2 R1). rewrite vec_equal_sym. exact He.
+Qed.
